@@ -186,7 +186,7 @@ def r2_tables(ctx: Ctx) -> None:
     # short circuit folding must be and/or
     for cname, kw in (("And", ast.And), ("Or", ast.Or)):
         fi = repo.func(f"nodes:{cname}.as_const")
-        ops = [n for n in ast.walk(fi.node) if isinstance(n, ast.BoolOp)]
+        ops = [n for n in ast.walk(fi.nnode) if isinstance(n, ast.BoolOp)]  # the expanded `v = L; if v: return v; return R` is folded back (N13)
         ctx.check(len(ops) == 1 and isinstance(ops[0].op, kw) and "left" in ast.unparse(ops[0].values[0]), f"fold:{cname}", f"nodes:{cname}.as_const", "short circuit fold",
                   f"{cname}.as_const does not fold as `left {cname.lower()} right`", fi.loc())
 
